@@ -30,10 +30,18 @@ DEVIATIONS = [None] + list(range(-720, 721))
 
 
 def plan(tier, seed):
-    return [{"n": N[tier], "k0": i * N[tier]} for i in range(16)] + [{"kind": "threads", "n": 40, "k": k} for k in range(4 if tier == "quick" else 16)] + [{"kind": "solo", "n": 160 if tier == "quick" else 4000}]
+    return [{"n": N[tier], "k0": i * N[tier]} for i in range(16)] + [{"kind": "threads", "n": 40, "k": k} for k in range(4 if tier == "quick" else 16)] + [{"kind": "solo", "n": 160 if tier == "quick" else 4000}, {"kind": "grid"}]
 
 
 _checks = 0
+
+
+def _km_type(rng) -> list:
+    """Sometimes the list names its meter type (current-transformer type 685... or not) before the clock: a neighbour, not part of it."""
+    r = rng.random()
+    if r < 0.5:
+        return []
+    return [((1, 1, 96, 1, 1, 255), ce.visible_string(rng.choice(("6851131BN243101040", "6841121BN243101040", "685", "6861111"))))]
 
 
 def _build(position: str, dt12: bytes, rng, spec, holder: dict):
@@ -46,7 +54,7 @@ def _build(position: str, dt12: bytes, rng, spec, holder: dict):
         holder["inner_spec"] = None
         return "kaifa", "frame", ce.apdu(body, dt12, tagged=position.startswith("apdu_tagged"))
     if position.endswith("kamstrup_frame"):
-        body = ce.kamstrup_body("Kamstrup_V0001", [((1, 1, 1, 7, 0, 255), ce.u32(rng.randrange(2**32))), (dlms_gen.clock_code(rng, (0, 1, 1, 0, 0, 255), tags), ce.datetime_octets(other12))])
+        body = ce.kamstrup_body("Kamstrup_V0001", _km_type(rng) + [((1, 1, 1, 7, 0, 255), ce.u32(rng.randrange(2**32))), (dlms_gen.clock_code(rng, (0, 1, 1, 0, 0, 255), tags), ce.datetime_octets(other12))])
         holder["inner_spec"] = other_spec
         return "kamstrup", "frame", ce.apdu(body, dt12, tagged=position.startswith("apdu_tagged"), invoke=b"\x00\x00\x00\x00")
     if position == "aidon_clock_element":
@@ -79,7 +87,8 @@ def _build(position: str, dt12: bytes, rng, spec, holder: dict):
         if rng.random() < 0.5:
             return "kaifa", "body", body
         return "kaifa", "frame", ce.apdu(body, rng.choice((None, other12)), tagged=rng.random() < 0.5)
-    body = ce.kamstrup_body("Kamstrup_V0001", [(dlms_gen.clock_code(rng, (0, 1, 1, 0, 0, 255), tags), ce.datetime_octets(dt12)), ((1, 1, 1, 8, 0, 255), ce.u32(9))], [0, rng.choice((0, 0, 3)), 0])
+    pairs = _km_type(rng) + [(dlms_gen.clock_code(rng, (0, 1, 1, 0, 0, 255), tags), ce.datetime_octets(dt12)), ((1, 1, 1, 8, 0, 255), ce.u32(9))]
+    body = ce.kamstrup_body("Kamstrup_V0001", pairs, [0] * (len(pairs) - 1) + [rng.choice((0, 0, 3)), 0])
     return "kamstrup", "body", body
 
 
@@ -241,7 +250,30 @@ def run_solo(shard, ctx) -> None:
                 ctx.violation(f"C10:{position}:only-this-decoder-imported", f"date-time {dt12.hex()} at {position}, interpreter that imported only han.{vendor}: {got} != {want}", case)
 
 
+def run_grid(shard, ctx) -> None:
+    """Every sentinel instant x deviation {unspecified, 0, +60, -60} x status {00, 80, FF, 01, 8F} x hundredths {unspecified, 0} in every position:
+    coincidences of two or three special values in one date-time do not depend on a random draw."""
+    rng = ctx.rng(ID, "grid")
+    n = 0
+    for (y, mo, d, h, mi, s_) in dlms_gen.SENTINEL_INSTANTS:
+        for dev in (None, 0, 60, -60):
+            if dev is not None and not (2 <= y <= 9998):
+                continue
+            for status in (0x00, 0x80, 0xFF, 0x01, 0x8F):
+                for hund in (None, 0):
+                    dt12 = ce.datetime12(y, mo, d, 0xFF, h, mi, s_, hund, dev, status)
+                    spec = {"civil": [y, mo, d, h, mi, s_], "us": 0, "offset_min": None if dev is None else -dev, "status": status, "deviation": dev, "hundredths": hund}
+                    for position in POSITIONS:
+                        check(position, dt12, spec, rng, ctx)
+                        n += 1
+                    ctx.case(b"grid" + dt12, True, len(POSITIONS))
+    ctx.count("sentinel_grid_datetimes_checked", n)
+
+
 def run(shard, ctx):
+    if shard.get("kind") == "grid":
+        run_grid(shard, ctx)
+        return
     if shard.get("kind") == "solo":
         run_solo(shard, ctx)
         return
